@@ -85,12 +85,16 @@ def server_close_vs_send():
     return err
 
 
-def overlapping_closes_then_send():
-    """B's close() has passed its is_closing test and is stopped just before it writes; A's close() runs to completion;
-    B resumes (its write is refused); then the application sends and closes again"""
+def overlapping_closes_then_send(right_after_the_test=False):
+    """B's close() has passed its is_closing test and is stopped just before it writes (or: right after the test, before
+    the very next statement); A's close() runs to completion; B resumes (its write is refused); then the application sends
+    and closes again"""
     ws, sock, gen = connected()
     gate = sched.Gate(timeout=2)
-    body = sched.trace_gate(lambda: ws.close(1001, b'B'), 'close', '_send_close(', gate, 'websocket.py')
+    if right_after_the_test:
+        body = sched.trace_gate(lambda: ws.close(1001, b'B'), 'close', 'is_closing', gate, 'websocket.py', after=True)
+    else:
+        body = sched.trace_gate(lambda: ws.close(1001, b'B'), 'close', '_send_close(', gate, 'websocket.py')
     b = sched.run_thread(body, 'B')
     gate.reached.wait(2)
     a = sched.run_thread(lambda: ws.close(1000, b'A'), 'A')
@@ -136,7 +140,9 @@ def replay(obligation, extra):
                      ('close() on thread A interrupted after its Close frame was written; thread B calls send_ping()', lambda: close_vs(lambda ws: ws.send_ping(b'p'))),
                      ('event loop processing the server Close reply is interrupted between its two flag updates; application thread calls send_text()', server_close_vs_send),
                      ('send_text() on thread B is held on the line of write() that takes the session lock; close() on thread A completes; B resumes', send_held_before_the_lock),
-                     ('close() on thread B has passed its is_closing test and is held before it writes; close() on thread A completes; B resumes; then send_text(), send_binary(), close()', overlapping_closes_then_send)):
+                     ('close() on thread B has passed its is_closing test and is held before it writes; close() on thread A completes; B resumes; then send_text(), send_binary(), close()', overlapping_closes_then_send),
+                     ('close() on thread B has just evaluated its is_closing test (stopped before its next statement); close() on thread A completes; B resumes; then sends and close()',
+                      lambda: overlapping_closes_then_send(True))):
         err = fn()
         if err:
             return dict(found=True, input='schedule: ' + name, expected='at most one Close frame, no data frame after it, the loser gets a WebSocketError', observed=err)
